@@ -252,6 +252,7 @@ type c10Case struct {
 	proxy       *c10Proxy
 	flight      *c10FlightB
 	isRandom    bool
+	version     uint32 // 1 or 0x6b3343cf (QUIC v2)
 	pnOffset    int64 // > 0: the flight of a connection re-created after Version Negotiation
 }
 
@@ -330,6 +331,10 @@ func c10GenCase(r *u.Rng) *c10Case {
 	}
 	if r.Bool() {
 		c.single = r.Range(0, 4)
+	}
+	c.version = 1
+	if r.Chance(1, 3) {
+		c.version = 0x6b3343cf
 	}
 	if r.Chance(1, 5) {
 		c.pnOffset = int64(r.Range(1, 5))
@@ -487,8 +492,15 @@ func (c *c10Case) spec() *quic.QUICSpec {
 }
 
 func (c *c10Case) String() string {
-	return fmt.Sprintf("pnoffset=%d ", c.pnOffset) + fmt.Sprintf("dcid=%d scid=%d ipn=%d pnlens=%v pnlen=%d expl=%v/%x ctl=%d prefix=%x conf=%x builder=%s plans=%+v udpmin=%d maxsize=%d hello=%d%s",
+	return fmt.Sprintf("v=%#x pnoffset=%d ", c.ver(), c.pnOffset) + fmt.Sprintf("dcid=%d scid=%d ipn=%d pnlens=%v pnlen=%d expl=%v/%x ctl=%d prefix=%x conf=%x builder=%s plans=%+v udpmin=%d maxsize=%d hello=%d%s",
 		len(c.dcid), len(c.scid), c.ipn, c.lens, c.single, c.explSet, c.expl, c.ctl, c.prefix, c.conf, c.bk, c.plans, c.udpMin, c.maxSize, len(c.hello), c.desc)
+}
+
+func (c *c10Case) ver() uint32 {
+	if c.version == 0 {
+		return 1
+	}
+	return c.version
 }
 
 func c10OptHex(set bool, b []byte) string { return u.Opt(set, u.Hex(b)) }
@@ -512,7 +524,7 @@ func c10RunCase(w *bufio.Writer, rep *c10Reporter, c *c10Case, dist map[string]i
 		confStore = &c10FixedTokenStore{c.conf}
 	}
 	info, dgs := quic.VerifUPackerFlight(quic.VerifUPackerCfg{Spec: sp, DestConnID: c.dcid, SrcConnID: c.scid, Hello: c.hello,
-		MaxSize: c.maxSize, ConfStore: confStore, Version: 1, MaxCalls: 10, FirstPNOffset: c.pnOffset})
+		MaxSize: c.maxSize, ConfStore: confStore, Version: c.ver(), MaxCalls: 10, FirstPNOffset: c.pnOffset})
 	if info.SetupPanic != "" {
 		rep.fail("upacker/panic", "setting up / packing the flight panicked: "+info.SetupPanic, c.String())
 		return
@@ -687,10 +699,35 @@ func c10RunCase(w *bufio.Writer, rep *c10Reporter, c *c10Case, dist map[string]i
 	// the serialised long header of every packet, as the independent observer read it
 	for i, d := range dgs {
 		if d.Err == "" && i < len(pkts) && pkts[i].Header != nil {
-			fmt.Fprintf(w, "CASE 1 %s\n", u.App("HeaderCase", u.Z(1), u.Hex(c.dcid), u.Hex(c.scid), u.Hex(info.Token),
+			fmt.Fprintf(w, "CASE 1 %s\n", u.App("HeaderCase", u.Z(int64(c.ver())), u.Hex(c.dcid), u.Hex(c.scid), u.Hex(info.Token),
 				u.Z(int64(d.LengthField)), u.Z(d.PN), u.Z(int64(d.PNLen)), u.Hex(pkts[i].Header)))
 			dist["HeaderCase"]++
 		}
+	}
+	// the frame payload of pass-through datagrams, byte for byte
+	if c.bk == "BPass" && len(c.hello) <= 1800 && dist["PayloadCase"] < 12+100*c10Thorough() {
+		for i, d := range dgs {
+			if d.Err != "" || i >= len(pkts) {
+				break
+			}
+			var fr []string
+			enc := 0
+			for _, f := range d.Frames {
+				fr = append(fr, u.Pair(u.Z(f[0]), u.Z(f[1])))
+				enc += 1 + len(c10AppendVarint(nil, uint64(f[0]))) + len(c10AppendVarint(nil, uint64(f[1]))) + int(f[1])
+			}
+			fmt.Fprintf(w, "CASE 1 %s\n", u.App("PayloadCase", u.Hex(c.hello), u.List(fr), u.Z(int64(len(pkts[i].Payload)-enc)), u.Hex(pkts[i].Payload)))
+			dist["PayloadCase"]++
+		}
+	}
+	// the whole protected packet, byte for byte (concrete Initial keys in the model): the first
+	// packet of a few short flights per run (AES-GCM in Gallina costs time per byte)
+	if len(dgs) > 0 && dgs[0].Err == "" && len(pkts) > 0 && len(pkts[0].Payload) <= 400+800*c10Thorough() && dist[fmt.Sprintf("WireCase-v%#x", c.ver())] < 3+20*c10Thorough() {
+		d, p := dgs[0], pkts[0]
+		fmt.Fprintf(w, "CASE 1 %s\n", u.App("WireCase", u.Z(int64(c.ver())), u.Hex(c.dcid), u.Hex(c.scid), u.Hex(info.Token),
+			u.Z(int64(d.LengthField)), u.Z(d.PN), u.Z(int64(d.PNLen)), u.Hex(p.Payload), u.Hex(d.Data[:p.PacketLen])))
+		dist["WireCase"]++
+		dist[fmt.Sprintf("WireCase-v%#x", c.ver())]++
 	}
 	dist[strings.Fields(strings.Trim(c.bk, "()"))[0]]++
 	dist[fmt.Sprintf("datagrams=%d", len(dgs))]++
@@ -701,6 +738,13 @@ func c10RunCase(w *bufio.Writer, rep *c10Reporter, c *c10Case, dist map[string]i
 		dist["samples"]++
 		fmt.Fprintf(w, "SAMPLE\t%s => %d datagrams\n", c.String(), len(dgs))
 	}
+}
+
+func c10Thorough() int {
+	if os.Getenv("VERIF_TIER") == "thorough" {
+		return 1
+	}
+	return 0
 }
 
 func c10PlanFor(plans []quic.InitialPacketPlan, i int) quic.InitialPacketPlan {
@@ -792,6 +836,18 @@ func c10Targeted(r *u.Rng) []*c10Case {
 		c.bk, c.builder = "BEx", cx
 		c.plans = []quic.InitialPacketPlan{{PacketSize: 1200}}
 		c.desc = fmt.Sprintf(" [targeted: frames fill PacketSize 1200 exactly +%d]", ex)
+		out = append(out, c)
+	}
+	// (j) token synthesis: every relation between ClientTokenLength and the prefix length, both
+	// versions (seeded change C10-e: a prefix longer than the length must not be truncated)
+	for ti, tp := range [][2]int{{0, 1}, {1, 1}, {1, 3}, {3, 1}, {7, 8}, {8, 8}, {9, 8}, {70, 1}, {0, 8}, {63, 0}, {64, 0}, {2, 70}} {
+		c = base()
+		c.hello = c10Hello(r, 300)
+		c.ctl, c.prefix = tp[0], r.Bytes(tp[1])
+		if ti%2 == 1 {
+			c.version = 0x6b3343cf
+		}
+		c.desc = fmt.Sprintf(" [targeted: token length %d, prefix of %d bytes]", tp[0], tp[1])
 		out = append(out, c)
 	}
 	// (i) CryptoLength at every varint width of the write offset
